@@ -203,6 +203,12 @@ def fixed_cases(tier):
     out.append(('fixed:F9', dict(attrs=['a', 'bb', 'c', 'd4'], shape=[3, 3, 2, 2], cls='boundary',
                                    meas=[dict(Q=None, kind='none', y=np.array([3.0, 1.0]), sigma=1.0, proj=('c',))], solver='MD', iters=1500,
                                    total=1.0, zeros=None, give_total=True, np_seed=2)))
+    import os
+    import pickle
+    wp = os.path.join(os.path.dirname(os.path.dirname(os.path.dirname(os.path.abspath(__file__)))), 'witnesses', 'C08_F16.pkl')
+    if os.path.exists(wp):
+        with open(wp, 'rb') as f:
+            out.append(('fixed:F16', pickle.load(f)))
     return out
 
 
